@@ -234,7 +234,11 @@ pub fn explore(unit: &str, bounds: &Bounds, run: RunFn, known: &(dyn Fn(&str) ->
                     if let (Some(cap), true) = (cap, r.cap_hit.is_none()) {
                         // lowest-cost-first: everything cheaper than the cheapest unfinished execution has been run
                         let open = queue.0.lock().unwrap().lowest_open_cost().min(my_cost);
-                        r.cap_hit = Some(format!("{} at bound d={}; every execution of deviation cost <= {} was run", cap, bounds.d, open as i64 - 1));
+                        r.cap_hit = Some(if bounds.d == 0 {
+                            format!("{}: this enumeration is incomplete ({} executions run)", cap, n)
+                        } else {
+                            format!("{} at bound d={}; every execution of deviation cost <= {} was run", cap, bounds.d, open as i64 - 1)
+                        });
                         r.completed = false;
                         hard_stop = true;
                     }
